@@ -52,6 +52,12 @@ CHECKS = {
                 text='Partial: the three refusing expat handlers are installed unconditionally, the refusal cannot be swallowed on the way to '
                      'the caller, every defused open passes the scanner, is_defused() equals the specification per mode, XML is parsed only '
                      'by the loaders/scanner. That expat invokes the handlers for every payload is trusted, not decided.', note=NOTE),
+    'C14': dict(ref='DESIGN.md §2 C14', technique='comparison normalisation with operands identified by their definitions, control-dependence '
+                                                    'path conditions, dominance, finite-table evaluation of the attribute-use test',
+                text='Partial: build-time facet restriction tests reject in the same direction as the run-time validators, new bounds are '
+                     'decoded by the base type, occurrence restriction has the specified direction and is consulted, the post-build '
+                     'content-model and attribute restriction checks are present with exact path conditions and run before the maps are '
+                     'marked built. Language inclusion of content models and wildcard inclusion are not decided.', note=NOTE),
 }
 NOT_APPLICABLE = {
     'C06': 'equivalence of lazy and eager traversals quantifies over runtime chunkings of runtime trees; no structural necessary '
@@ -61,6 +67,6 @@ NOT_APPLICABLE = {
     'C16': 'set semantics of hand-written case splits over namespace constraints can only be decided by evaluating them over the '
            'enumerated domain (execution); shape rules are blind to the defect quoted in the property',
 }
-for _p in ( 'C08', 'C09', 'C10', 'C14', 'C17', 'C18', 'C19', 'C20'):
+for _p in ( 'C08', 'C09', 'C10', 'C17', 'C18', 'C19', 'C20'):
     NOT_APPLICABLE.setdefault(_p, PENDING)
 FIX_COMMITS = ['0d39fae', 'ee7fbf0', 'ec74ff3', '0116491', '72bb2c6', '4feb9ab', '7a4e62d']
